@@ -32,6 +32,7 @@ RES = os.path.join(vf.REPO, "tests", "resources")
 ASAN = "detect_leaks=0:allocator_may_return_null=1:handle_abort=1"
 UBSAN = "print_stacktrace=1"
 ASAN_FAST = ASAN + ":symbolize=0"
+os.environ.setdefault("C01_STACK_MB", "64")     # sanitizer runs; the plain pass overrides it with 8
 UBSAN_FAST = "print_stacktrace=0:symbolize=0"
 
 # stages in which a recursive unit reducer runs (family K3)
@@ -350,6 +351,9 @@ def make_inputs(ctx, quick):
         with open(p, "wb") as f:
             f.write(doc)
         inputs.append((p, indir + "/", label, "sweep"))
+        # a CellML 2.0 document is read alike by both parsers: the permissive run is kept for every fourth one only
+        if b"cellml/2.0#" in doc[:300] and not label.startswith("xml:") and k % 4:
+            MODES[p] = "s"
     data = {}
     weights = []
     for p in files:
@@ -502,13 +506,54 @@ def model_verdicts_many(mdl, descs, workdir):
 NULL_KINDS = ("UB:member", "SEGV-null", "UB:reference_binding_to_null", "UB:load_of_null", "UB:null_pointer")
 
 
-def classify(mode, d, bang, stage, models, verdicts):
+def longest_ws_run(text):
+    best = cur = 0
+    for ch in text:
+        if ch in " \t\n\r":
+            cur += 1
+            best = max(best, cur)
+        else:
+            cur = 0
+    return best
+
+
+def raw_features(path):
+    """lexical facts about the raw input (for deaths inside the parser, where no model can be described)"""
+    try:
+        b = open(path, "rb").read()
+    except OSError:
+        return set()
+    f = set()
+    if b"<![CDATA[" in b:
+        f.add("cdata")
+    names = set(re.findall(rb"<!ENTITY\s+([A-Za-z_][\w.-]*)", b))
+    body = b.split(b"]>", 1)[1] if b"]>" in b else b
+    # a declared general entity referenced in element content (not inside an attribute value)
+    content = re.sub(rb'"[^"]*"|\'[^\']*\'', b"", body)
+    if any((b"&" + n + b";") in content for n in names):
+        f.add("entity-ref-in-content")
+    return f
+
+
+def classify(mode, d, bang, stage, models, verdicts, plain=False, path=None):
     """finding id (or None) for the death in `stage`: a predicate over the INPUT (as parsed: units graph, MathML shape
     decided by the extracted model, outcome of import resolution) plus the dying stage and the kind of death"""
     v = d[stage]
     kind = bang.get("kind", "")
     frames = bang.get("frames", "")
     top = frames.split(";")[0]
+    if plain and v.startswith("CRASH(11)"):
+        kind = "stack-overflow"     # no sanitizer in the plain pass: SIGSEGV is all there is to see; the input decides
+    if stage == "P" and path is not None:
+        feats = raw_features(path)
+        if v.startswith("THROW(St11logic_error)") and "cdata" in feats:
+            return "C01-Kcdata-section", "Parser::parseModel ends with an uncaught std::logic_error: the document holds a CDATA section"
+        if v.startswith("CRASH") and "entity-ref-in-content" in feats and (plain or "traverseTreeFor" in frames):
+            return "C01-Kentity-reference", "Parser::parseModel dies (%s): a declared entity is referenced in element content" % top
+    if stage in ("R", "FR") and v.startswith("CRASH") and kind == "stack-overflow" \
+            and any(longest_ws_run(ms) >= 8000 for m in models for ms in m.get("math", [])):
+        return "C01-Kregex-whitespace-run", "Printer::printModel exhausts the stack: a math string holds a run of %d white-space characters" % max(
+            longest_ws_run(ms) for m in models for ms in m.get("math", []))
     mine = [m for m in models if m["label"].startswith(mode)] or models
     ana, pw = verdicts.get(mode, (set(), set()))
     # K3: a recursive unit reducer on a cyclic units graph -> stack exhaustion
@@ -549,12 +594,28 @@ def classify(mode, d, bang, stage, models, verdicts):
     return None, None
 
 
-def pipeline_part(ctx, drv, mdl, quick):
+SIZE_LABELS = ("stress:", "run:", "nest:")
+MODES = {}      # input path -> parser modes to run ("sp" when absent)
+
+
+def pipeline_part(ctx, drv, drv_plain, mdl, quick):
+    """the sanitizer pass over every input (64 MiB stack: ASan inflates frames several times), then the size-related inputs once
+    more on the uninstrumented build with the usual 8 MiB stack, where recursion that grows with the input shows as SIGSEGV"""
     inputs = make_inputs(ctx, quick)
-    envp = env_with(ASAN_OPTIONS=ASAN, UBSAN_OPTIONS=UBSAN, C01_SECONDS="30")
+    envp = env_with(ASAN_OPTIONS=ASAN, UBSAN_OPTIONS=UBSAN, C01_SECONDS="45", C01_STACK_MB="64")
+    n, hist, label_hist, stage_hist, nt = pipeline_run(ctx, drv, mdl, inputs, envp, "asan", False)
+    sized = [i for i in inputs if any(t in i[2] for t in SIZE_LABELS)]
+    envq = env_with(C01_SECONDS="30", C01_STACK_MB="8")
+    n2, hist2, _, stage_hist2, _ = pipeline_run(ctx, drv_plain, mdl, sized, envq, "plain8", True)
+    hist["plain-8MiB-pass"] = hist2
+    stage_hist.update({"plain8/" + k: v for k, v in stage_hist2.items()})
+    return n + n2, hist, label_hist, stage_hist, nt
+
+
+def pipeline_run(ctx, drv, mdl, inputs, envp, tag, plain):
     t0 = time.time()
-    outs = run_sharded(drv, "pipe", ["%s\t%s\tsp\t" % (p, b) for p, b, _, _ in inputs], ctx.workdir, "pipe", envp)
-    ctx.log("pipeline: %d inputs in %.0fs" % (len(inputs), time.time() - t0))
+    outs = run_sharded(drv, "pipe", ["%s\t%s\t%s\t" % (p, b, MODES.get(p, "sp")) for p, b, _, _ in inputs], ctx.workdir, "pipe-" + tag, envp)
+    ctx.log("pipeline[%s]: %d inputs in %.0fs" % (tag, len(inputs), time.time() - t0))
     hist = {"clean": 0}
     label_hist = {}
     stage_hist = {}
@@ -564,16 +625,21 @@ def pipeline_part(ctx, drv, mdl, quick):
     for k, ((path, base, label, origin), line) in enumerate(zip(inputs, outs)):
         lab0 = label.split("+")[0].split(":")[0]
         label_hist[lab0] = label_hist.get(lab0, 0) + 1
+        modes = MODES.get(path, "sp")
         d0, _, _ = tokens(line.split("[p]")[0])
         if d0.get("P") == "i0":
             import hashlib
             nontrivial.add(hashlib.sha256(open(path, "rb").read()).hexdigest())
-        if line.endswith("END") and "[p]" in line:
+        segs = {}
+        for part in re.split(r"(?=\[[sp]\])", line):
+            if part.startswith("[s]") or part.startswith("[p]"):
+                segs[part[1]] = part
+        dall, oall, _ = tokens(line)
+        if line.endswith("END") and all(m in segs for m in modes) and not any(is_dead(dall[x]) for x in oall):
             hist["clean"] += 1
             continue
-        segs = line.split("[p]")
-        work.append([k, "s", segs[0], [], False])
-        work.append([k, "p", segs[1] if len(segs) > 1 else None, [], False])
+        for m in modes:
+            work.append([k, m, segs.get(m), [], False])
     dead_inputs = sorted(set(w[0] for w in work))
     descs = dict(zip(dead_inputs, describe_many(drv, [(inputs[k][0], inputs[k][1]) for k in dead_inputs], ctx.workdir)))
     verds = dict(zip(dead_inputs, model_verdicts_many(mdl, [descs[k] for k in dead_inputs], ctx.workdir)))
@@ -586,7 +652,7 @@ def pipeline_part(ctx, drv, mdl, quick):
             batch = [w for w in torun if w[4] == slow]
             if batch:
                 lines = ["%s\t%s\t%s\t%s" % (inputs[w[0]][0], inputs[w[0]][1], w[1], ",".join(w[3])) for w in batch]
-                e = env_with(ASAN_OPTIONS=ASAN, UBSAN_OPTIONS=UBSAN, C01_SECONDS="120") if slow else envp
+                e = dict(envp, C01_SECONDS="120") if slow else envp
                 o = run_sharded(drv, "pipe", lines, ctx.workdir, "rerun", e, nsh=(4 if slow else None))
                 reruns += len(batch)
                 for w, seg in zip(batch, o):
@@ -603,10 +669,11 @@ def pipeline_part(ctx, drv, mdl, quick):
             if not dead:
                 if slow:
                     hist["slow-but-terminates"] = hist.get("slow-but-terminates", 0) + 1
+                    ctx.notes.append("slow but terminates [%s]: %s (%s)" % (tag, os.path.basename(path), label[:80]))
                 continue
             stage = dead[0]
             v = d[stage]
-            fid, text = classify(mode, d, bang, stage, descs.get(k, []), verds.get(k, {}))
+            fid, text = classify(mode, d, bang, stage, descs.get(k, []), verds.get(k, {}), plain=plain, path=path)
             if v.startswith("TIMEOUT") and not slow and fid is None:
                 nxt.append([k, mode, None, skip, True])      # once more, alone-ish and with a generous limit
                 continue
@@ -615,8 +682,8 @@ def pipeline_part(ctx, drv, mdl, quick):
             if fid and ctx.known_finding(fid, "%s [%s parse, input %s (%s)]" % (text, "strict" if mode == "s" else "permissive",
                                                                                os.path.basename(path), label)):
                 hist[fid] = hist.get(fid, 0) + 1
-                if fid == "C01-K3-units-cycle":
-                    continue        # every later stage reduces units as well: nothing to see behind this crash
+                if fid == "C01-K3-units-cycle" or stage == "P":
+                    continue        # every later stage reduces units as well / nothing runs without a parsed model
                 skip = skip + [stage]
                 if fid == "C01-Kdangling-units-reference":
                     skip += [x for x in ("Qi", "Qd", "C", "Q2", "Qd2", "F") if x not in skip]
@@ -627,18 +694,18 @@ def pipeline_part(ctx, drv, mdl, quick):
                 continue
             nviol += 1
             if nviol <= 5:
-                keep = os.path.join(ctx.replaydir, "pipe_%d_input%s" % (nviol, os.path.splitext(path)[1] or ".xml"))
+                keep = os.path.join(ctx.replaydir, "pipe_%s_%d_input%s" % (tag, nviol, os.path.splitext(path)[1] or ".xml"))
                 with open(keep, "wb") as f:
                     f.write(open(path, "rb").read())
-                ctx.violation("C01 pipeline: %s parse, stage %s: %s kind=%s frames=%s (input %s, %s)" % (
-                    "strict" if mode == "s" else "permissive", stage, v, bang.get("kind"), bang.get("frames"), os.path.basename(path), label),
-                    "pipe_%d.json" % nviol,
-                    {"mode": "pipe", "input_file": keep, "base": base, "parser": mode, "skip": skip, "label": label, "origin": origin,
+                ctx.violation("C01 pipeline[%s]: %s parse, stage %s: %s kind=%s frames=%s (input %s, %s)" % (
+                    tag, "strict" if mode == "s" else "permissive", stage, v, bang.get("kind"), bang.get("frames"), os.path.basename(path), label),
+                    "pipe_%s_%d.json" % (tag, nviol),
+                    {"mode": "pipe", "pass": tag, "input_file": keep, "base": base, "parser": mode, "skip": skip, "label": label, "origin": origin,
                      "line": seg, "stage": stage, "classified": fid})
         work = nxt
         if not work:
             break
-    ctx.log("pipeline: %s; deaths by stage: %s; re-runs %d" % (hist, stage_hist, reruns))
+    ctx.log("pipeline[%s]: %s; deaths by stage: %s; re-runs %d" % (tag, hist, stage_hist, reruns))
     return len(inputs), hist, label_hist, stage_hist, len(nontrivial)
 
 
@@ -649,7 +716,9 @@ def build(ctx):
     b = vf.build_repo("asan")
     drv = vf.compile_driver(b, os.path.join(vf.ROOT, "harness/c01_driver.cpp"))
     mdl = vf.ocaml_driver("math")
-    return drv, mdl
+    bp = vf.build_repo("plain")
+    drv_plain = vf.compile_driver(bp, os.path.join(vf.ROOT, "harness/c01_driver.cpp"))
+    return drv, mdl, drv_plain
 
 
 def run(ctx):
@@ -665,7 +734,7 @@ def run(ctx):
         "generator: only the operands generateCode reads unconditionally are modelled (printable); the sqrt shortcut of ROOT is ignored (over-approximates crashes inside a known class)",
         "known findings are matched on the INPUT (units reference cycle in the parsed model, MathML shape class decided by the extracted model, failed import resolution) plus the dying stage",
     ]
-    drv, mdl = build(ctx)
+    drv, mdl, drv_plain = build(ctx)
     ctx.log("build + drivers ready")
     # a private scratch directory per run: concurrent runs of this check must not share case / input files
     base_wd = ctx.workdir
@@ -678,7 +747,7 @@ def run(ctx):
     try:
         n1, h1, enum_stats, nt1, samples = math_part(ctx, drv, mdl, quick)
         n2, h2 = pow_part(ctx, drv, mdl)
-        n3, h3, labels, stages, nt3 = pipeline_part(ctx, drv, mdl, quick)
+        n3, h3, labels, stages, nt3 = pipeline_part(ctx, drv, drv_plain, mdl, quick)
     finally:
         shutil.rmtree(ctx.workdir, ignore_errors=True)
         ctx.workdir = base_wd
@@ -699,7 +768,9 @@ def run(ctx):
 
 def replay(ctx, path):
     r = json.load(open(path))
-    drv, mdl = build(ctx)
+    drv, mdl, drv_plain = build(ctx)
+    if r.get("pass") == "plain8":
+        drv = drv_plain
     mode = r.get("mode")
     if mode == "math":
         cf = os.path.join(ctx.workdir, "replay.cases")
@@ -717,6 +788,7 @@ def replay(ctx, path):
     elif mode == "pipe":
         cf = os.path.join(ctx.workdir, "replay.in")
         open(cf, "w").write("%s\t%s\t%s\t%s\n" % (r["input_file"], r["base"], r["parser"], ",".join(r.get("skip", []))))
-        print("impl :", vf.sh([drv, "pipe", cf], env=env_with(ASAN_OPTIONS=ASAN, UBSAN_OPTIONS=UBSAN))[1].strip())
+        print("impl :", vf.sh([drv, "pipe", cf], env=env_with(ASAN_OPTIONS=ASAN, UBSAN_OPTIONS=UBSAN,
+                                                             C01_STACK_MB="8" if r.get("pass") == "plain8" else "64"))[1].strip())
     else:
         print(json.dumps(r, indent=1))
